@@ -192,7 +192,12 @@ def mat(c):
     if k == "bytearray":
         return bytearray.fromhex(c["h"])
     if k == "memoryview":
-        return memoryview(bytes.fromhex(c["h"]))
+        mv = memoryview(bytes.fromhex(c["h"]))
+        if c.get("fmt"):
+            return mv.cast(c["fmt"])
+        if c.get("shape"):
+            return mv.cast("B", c["shape"])
+        return mv
     if k == "list":
         return [mat(e) for e in c["v"]]
     if k == "tuple":
